@@ -297,29 +297,36 @@ async fn on_event<K, V, LC>(
             }
         }
         MapMessage::Clear => {
+            let old_map = mem::take(map);
             if dispatch {
-                let old_map = mem::take(map);
                 lifecycle.on_clear(old_map).await;
             }
         }
         MapMessage::Take(cnt) => {
-            let mut it = mem::take(map).into_iter();
-
-            for (key, value) in (&mut it).take(cnt as usize) {
-                map.insert(key, value);
-            }
-            for (key, value) in it {
-                lifecycle.on_remove(key, map, value).await;
+            let to_remove = map.keys().skip(cnt as usize).cloned().collect::<Vec<_>>();
+            for key in to_remove {
+                if let Some(value) = map.remove(&key) {
+                    if dispatch {
+                        lifecycle.on_remove(key, map, value).await;
+                    }
+                }
             }
         }
         MapMessage::Drop(cnt) => {
-            let mut it = mem::take(map).into_iter();
-
-            for (key, value) in (&mut it).take(cnt as usize) {
-                lifecycle.on_remove(key, map, value).await;
-            }
-            for (key, value) in it {
-                map.insert(key, value);
+            if cnt as usize >= map.len() {
+                let old_map = mem::take(map);
+                if dispatch {
+                    lifecycle.on_clear(old_map).await;
+                }
+            } else {
+                let to_remove = map.keys().take(cnt as usize).cloned().collect::<Vec<_>>();
+                for key in to_remove {
+                    if let Some(value) = map.remove(&key) {
+                        if dispatch {
+                            lifecycle.on_remove(key, map, value).await;
+                        }
+                    }
+                }
             }
         }
     }
